@@ -66,17 +66,22 @@ two item loops is never the answer, `leaf must exist` / `seek past end` / the `u
 `assert_eq!(root, subtree_root)` of the reconstruction are never reached), and a request that is not completed can
 always move: if it waits for nothing its next `step` finds a page at hand, asks for a page, or asks for a leaf (never
 "no query": `needed_leaves` is never exhausted while the iterator is blocked); if it waits for a page the hash table
-holds that page; if it waits for a leaf that leaf is the one its iterator is blocked on. -/
-theorem T5_seek_total_partial (W : World Node VH V) (hOK : W.OK) (s : Sys Node VH V) (hs : SysInv W s) (i : Nat)
+holds that page; if it waits for a leaf that leaf is the one its iterator is blocked on.  Each of these moves lowers
+the termination measure (`T5_seek_terminates`). -/
+theorem T5_seek_total (W : World Node VH V) (hOK : W.OK) (s : Sys Node VH V) (hs : SysInv W s) (i : Nat)
     (r : Req Node VH V) (aw : Option Query) (hi : s.reqs[i]? = some (r, aw)) (hnc : r.isCompleted = false) :
     match aw with
-    | none => ∃ s' out, Seek.step W.env s i = .ok (s', out) ∧ SysInv W s' ∧ out ≠ .noQuery ∧ out ≠ .busy
-    | some (.page _) => ∃ s', supplyPage W.env s i = .ok s' ∧ SysInv W s'
-    | some (.leaf _) => ∃ s', supplyLeaf W.env s i = .ok s' ∧ SysInv W s' := by
+    | none => ∃ s' out, Seek.step W.env s i = .ok (s', out) ∧ SysInv W s' ∧ out ≠ .noQuery ∧ out ≠ .busy ∧
+        sysMeasure W.env.leaves.length s' < sysMeasure W.env.leaves.length s
+    | some (.page _) => ∃ s', supplyPage W.env s i = .ok s' ∧ SysInv W s' ∧
+        sysMeasure W.env.leaves.length s' < sysMeasure W.env.leaves.length s
+    | some (.leaf _) => ∃ s', supplyLeaf W.env s i = .ok s' ∧ SysInv W s' ∧
+        sysMeasure W.env.leaves.length s' < sysMeasure W.env.leaves.length s := by
   cases aw with
   | none =>
-    rcases step_ok W hOK s hs i with ⟨s', out, e1, e2, e3⟩ | ⟨_, e2⟩
-    · exact ⟨s', out, e1, e2, e3 r hi hnc⟩
+    rcases step_ok W hOK s hs i with ⟨s', out, e1, e2, e3, e4⟩ | ⟨_, e2⟩
+    · obtain ⟨o1, o2⟩ := e3 r hi hnc
+      exact ⟨s', out, e1, e2, o1, o2, e4 o1 o2⟩
     · rw [hi] at e2; cases e2
   | some q =>
     cases q with
@@ -88,6 +93,32 @@ theorem T5_seek_total_partial (W : World Node VH V) (hOK : W.OK) (s : Sys Node V
       rcases supplyLeaf_ok W hOK s hs i with h | ⟨_, e2⟩
       · exact h
       · exact absurd hi (e2 r l)
+
+/-- **T5.seek.terminates**: the measure `Σ (257 − depth)·(2N + 6) + rank` (`N` b-tree leaves; `Store/SeekMeasure.lean`)
+of a reachable state is at most `#requests · (257·(2N + 6) + 2N + 3)`, and EVERY operation that does anything — a `step`
+that is not answered `busy` / "no query", a delivered page, a delivered leaf, of any request, in any order — strictly
+lowers it.  So after the last `push` at most that many such operations can happen, under every schedule; together
+with `T5_seek_total` (an unfinished request can always move): every seek completes, fuel is never the answer. -/
+theorem T5_seek_terminates (W : World Node VH V) (hOK : W.OK) (s : Sys Node VH V) (hs : SysInv W s) (i : Nat) :
+    sysMeasure W.env.leaves.length s ≤
+      s.reqs.length * (257 * (2 * W.env.leaves.length + 6) + 2 * W.env.leaves.length + 3) ∧
+    (∀ s' out, Seek.step W.env s i = .ok (s', out) → out ≠ .noQuery → out ≠ .busy →
+      sysMeasure W.env.leaves.length s' < sysMeasure W.env.leaves.length s) ∧
+    (∀ s', supplyPage W.env s i = .ok s' → sysMeasure W.env.leaves.length s' < sysMeasure W.env.leaves.length s) ∧
+    (∀ s', supplyLeaf W.env s i = .ok s' → sysMeasure W.env.leaves.length s' < sysMeasure W.env.leaves.length s) := by
+  refine ⟨sysMeasure_bound hs, ?_, ?_, ?_⟩
+  · intro s' out h o1 o2
+    rcases step_ok W hOK s hs i with ⟨s1, out1, e1, _, _, e4⟩ | ⟨e1, _⟩
+    · rw [e1] at h; cases h; exact e4 o1 o2
+    · rw [e1] at h; cases h
+  · intro s' h
+    rcases supplyPage_ok W hOK s hs i with ⟨s1, e1, _, e3⟩ | ⟨e1, _⟩
+    · rw [e1] at h; cases h; exact e3
+    · rw [e1] at h; cases h
+  · intro s' h
+    rcases supplyLeaf_ok W hOK s hs i with ⟨s1, e1, _, e3⟩ | ⟨e1, _⟩
+    · rw [e1] at h; cases h; exact e3
+    · rw [e1] at h; cases h
 
 /-- the invariant the two theorems above rest on holds along every run -/
 theorem T5_seek_invariant (W : World Node VH V) (hOK : W.OK) (s0 : Sys Node VH V) (h0 : SysInv W s0) (acts : List Seek.Action)
